@@ -16,10 +16,12 @@ echo "== demo with change (must fail)"
 go test -vet=off -count=1 -run 'TestSeeded' $PKGS > /tmp/seed-$ID-with.log 2>&1; WITH=$?
 tail -5 /tmp/seed-$ID-with.log
 echo "== demo without change (must pass)"
-git stash push -q -- $FILES
+# (not git stash: the stash is shared by all worktrees of a repository)
+git diff -- $FILES > /tmp/seed-$ID-src.diff
+git apply -R /tmp/seed-$ID-src.diff
 go test -vet=off -count=1 -run 'TestSeeded' $PKGS > /tmp/seed-$ID-without.log 2>&1; WITHOUT=$?
 tail -3 /tmp/seed-$ID-without.log
-git stash pop -q
+git apply /tmp/seed-$ID-src.diff
 echo "suite=$SUITE demo_with=$WITH demo_without=$WITHOUT"
 if [ $SUITE -eq 0 ] && [ $WITH -ne 0 ] && [ $WITHOUT -eq 0 ]; then
   D=/verif/seeded/$ID; mkdir -p $D
